@@ -797,6 +797,7 @@ def crash_explore_jobs(prop, tier, oracles, snap_root=None):
     add("g14a", 1, 1, "func")
     if prop == "C03":
         add("g14b", 1, 1, "func", depth2=False)   # a task that carries TWO tags (its temp-dir name hashes both)
+        add("g14b", 1, 1, "func", extra="defaultout-e", depth2=False)   # ... and whose output has the DEFAULT name (which contains both tags)
     add("g3", 1, 1, "cmd", extra="dirout")   # a directory as declared output: mkdir {o:out} && files inside
     # p's output declared with an absolute path (its temp path differs from its final path). Only g2: a
     # CONSUMER of an absolute path hashes that path into its temp-dir name, and recoveries run in a
@@ -910,7 +911,7 @@ def recovery_stage(prop, tier, depth_tag, oracles, crash=False):
                         nj["_snap"] = True
                         nj["snap_dir"] = os.path.join(ctx["scratch"], "snaps", nj["id"])
                     jobs.append(nj)
-                    if not clean and j["scen"]["graph"] == "g14b":
+                    if j["scen"]["graph"] == "g14b" and (not clean or j["scen"].get("extra") == "defaultout-e"):
                         # the re-run is another process: its range-over-map orders are not those of the killed run
                         mj = copy.deepcopy(nj)
                         mj["id"] += "-mo1"
